@@ -51,6 +51,7 @@ def generate(rng, tier):
             reg = lambda k_: ["tl", [[a, a + rng.choice([3, 9, 40]) * u_] for a in sorted(rng.sample(range(0, hi, u_), k_))]]
             cases.append({"regime": regime, "t": big, "sup": rng.choice([None, reg(12)]), "removed": reg(20),
                           "other": gen.big_timeline(rng, regime, 40)})
+    cases += gen.decimal_copies(rng, cases, (1500 if tier == "thorough" else 150), lambda c: len(c['t']) < 50)
     cases += gen.far_copies(rng, cases, ['t', 'sup', 'removed', 'other'], (400 if tier == "thorough" else 60))
     return {"cases": cases, "meta": {"exhaustive": True, "small_scope_cases": nex,
                                      "sizes": gen.stats(cases, {"n_t": lambda c: len(c["t"]),
